@@ -5,6 +5,7 @@ SigmaFull == {39, 34, 92, 47, 98, 102, 110, 114, 116, 117, 120, 48, 49, 56, 57, 
               32, 1, 31, 127, 233, 128512}
 SigmaEsc  == {39, 34, 92, 117, 48, 56, 68, 100, 67, 65, 110, 120, 1}
 SigmaHex  == {92, 117, 48, 68, 100, 56, 66, 67, 70, 69, 55}     \* \ u 0 D d 8 B C F E 7
+SigmaHexQ == SigmaHex \cup {39, 34, 120}                       \* ... plus both quotes and a plain character
 BothQuotes == {39, 34}
 
 \* T7a: every spelling of every short string decodes back to it
